@@ -912,6 +912,9 @@ type c11AddrSpec struct {
 	Name    string // short label used in histories ("A", "B", "X1", "via-R2")
 	Addr    string // remote multiaddr of connections made from this address; %R2 is replaced by the other relay's ID
 	Relayed bool   // the address is a circuit address (the connection is a limited one)
+	// Unlimited: the other relay imposes no limits: the connection goes through it all the same (its remote address is a
+	// circuit address) but it is NOT marked Limited
+	Unlimited bool
 	IP      string // model: the IP the caps count by ("" for relayed addresses)
 	ASN     int    // model: ASN class (0 = none / IPv4); checked against asnutil at start-up
 	// ReserveOnly: the history search uses this address for RESERVE only (keeps the alphabet small).
@@ -1069,7 +1072,8 @@ func (sy *c11Sys) dial(c, a int) *c11Conn {
 	if x := sy.conns[c][a]; x != nil && !x.IsClosed() {
 		return x
 	}
-	x := sy.net.openConn(sy.ids[c], sy.addrs[c][a], sy.cfg.Clients[c].Addrs[a].Relayed)
+	as := sy.cfg.Clients[c].Addrs[a]
+	x := sy.net.openConn(sy.ids[c], sy.addrs[c][a], as.Relayed && !as.Unlimited)
 	sy.conns[c][a] = x
 	return x
 }
